@@ -1,13 +1,13 @@
 (* Props/C02.v — property C02: every map-conformant document is accepted with zero errors.
    Statements only.  Proofs: Proofs/C0203_segment.v (on C15, C14, C07_valid), Proofs/C07_walker.v; Spec/C0203_spec.v.
 
-   Two levels, both theorems; their composition into one statement about x12n_document is PARTIAL.
+   Three levels, all theorems.
    (i) SEGMENT: for every map satisfying the computable predicates valid_wf / fmt_wf, every segment node with
    well-formed syntax notes and EVERY data segment that conforms to the node — no more elements than defined; at every
    position the value draws no error code from its definition (the clause-by-clause predicate of C15: usage, length,
    type language, code lists, pattern, qualifier-selected formats); every syntax note holds (C14 semantics) —
    validation returns true and emits no error event.  fmt_wf and notes_wf are necessary (witnesses in the proof file).
-   (ii) DOCUMENT (Spec/C02_doc_spec.v, Proofs/C02_doc*.v): an independent, generator-style description conf_inst /
+   (ii) WALKER (Spec/C02_doc_spec.v, Proofs/C02_doc*.v): an independent, generator-style description conf_inst /
    conf_body of "conformant instance of a loop of the map" (children in position order, required ones present,
    repeats within max_use / repeat, loop instances starting with their first segment, wrapper loops, every data
    segment matching its node and no rival candidate the walker tries first), and, for every map with walker_wf and
@@ -15,15 +15,23 @@
    node, emits NO event at any step, and ends with the predicted usage counts.  walker_wf and keys_ok hold (by
    evaluation) on all loadable shipped maps except the two 999 maps, where keys_ok fails — and there the statement is
    false of the code: C02_999_conformant_rejected (recorded finding).
-   Not proved: the root level (ISA / GS forcing by the driver), a wrapper entered through a loop other than its first,
-   same-position siblings out of index order, and the composition of (i), (ii), C04_consistent_silent and the
-   acknowledgement theorems of C05 into "x12n_document returns True".  The check generates conformant documents for
-   every map the index selects and applies the property to the implementation (recorded findings: see DESIGN). *)
+   (iii) WHOLE DOCUMENT (Spec/C02_whole_spec.v, Proofs/C02_whole*.v): C02_whole_document_accepted — for a
+   conformant document (one interchange; every group a conformant instance of GS_LOOP of the map the index selects,
+   its segments conforming to their nodes; envelope read silently — derived from C04's consistent outside HL / 837
+   documents; maps with walker_wf, keys_ok, valid_wf, fmt_wf and the envelope shape top_okb) in any admissible
+   delimiters and line layout, x12n_document returns True and calls NO error method of the handler;
+   C02_whole_document_acknowledged — the final error tree counts no error, every group is acknowledged A and no set
+   has a counted error.  Groups of one interchange may use different maps (compatibility top_compat, decidable).
+   Excluded, exactly: several interchanges per text or an interchange without group; the 278 BHT map switch;
+   wrappers entered through a loop other than their first; same-position siblings out of index order; HL / 837 LX
+   numbering is a hypothesis on the reader model (reader_silent), not derived.  The check generates conformant
+   documents for every map the index selects and applies the property to the implementation (recorded findings). *)
 From Coq Require Import String.
 From PX.Lib Require Import Base PyStr.
-From PX.Model Require Import Path Segment MapLoad MapTree Element Counter Walker.
-From PX.Spec Require Import C07_valid_wf C07_walker_wf C0203_spec C02_doc_spec.
-From PX.Proofs Require Import C07_valid C0203_segment C02_doc_counter C02_doc_walk C02_doc C02_doc_examples.
+From PX.Model Require Import Path Segment Raw Reader MapLoad MapTree Element Counter Walker MapEnv Driver.
+From PX.Model Require Errh.
+From PX.Spec Require Import C01_spec C12_spec C12_doc_spec C07_valid_wf C07_walker_wf C0203_spec C02_doc_spec C05_spec C02_whole_spec.
+From PX.Proofs Require Import C07_valid C0203_segment C02_doc_counter C02_doc_walk C02_doc C02_doc_examples C02_whole.
 
 Theorem C02_conformant_segment_accepted :
   forall m sn d sg, valid_wf m = true -> fmt_wf m = true -> seg_node_of m sn -> notes_wf sn = true ->
@@ -86,3 +94,24 @@ Theorem C02_999_conformant_rejected :
      (Some (M999.l2100 ++ [2]), [("5", "Segment CTX exceeded max count.  Found 2, should have 1")]%string)].
 Proof. destruct M999.keys_shared as (A & B & _ & C & D). auto. Qed.
 Print Assumptions C02_999_conformant_rejected.
+
+(* ---- THE WHOLE DOCUMENT ---- *)
+Theorem C02_whole_document_accepted :
+  forall load idx d conv f isal gs gL r_iea iea,
+    is_break conv = true -> conformant_document load idx d f isal gs gL r_iea iea ->
+    snd (run_document_gen load idx (doc_text d conv f gs iea)) = Ok true /\
+    no_error_call (fst (run_document_gen load idx (doc_text d conv f gs iea))).
+Proof. intros. eapply C02_whole_accepted; eassumption. Qed.
+Print Assumptions C02_whole_document_accepted.
+
+Theorem C02_whole_document_acknowledged :
+  forall load idx d conv f isal gs gL r_iea iea,
+    is_break conv = true -> conformant_document load idx d f isal gs gL r_iea iea ->
+    exists sF, run_state load idx (doc_text d conv f gs iea) = Some sF /\ ds_valid sF = true /\
+      Errh.get_error_count (ds_errh sF) = 0 /\
+      Forall (fun g => Errh.gs_ack_code (ds_errh sF) g = list_ascii_of_string "A" /\
+                       Forall (fun t => Errh.st_err_count (ds_errh sF) t = 0)
+                              (nodes_at (Errh.h_st (ds_errh sF)) (Errh.gn_children g)))
+             (visited_gs (ds_errh sF)).
+Proof. intros. eapply C02_whole_acknowledged; eassumption. Qed.
+Print Assumptions C02_whole_document_acknowledged.
